@@ -383,7 +383,7 @@ def u_ti_clear_tail(ctx):
         raise Unsupported("_ti_clear_images: the statement `kitty_widgets = []` was not found exactly once")
     tail = fn.body[idx[0]:]
     eng = ctx.engine("C18/_ti_clear_images[tail]", "C18")
-    eng.default_replay = "C18.screen"
+    eng.default_replay = "C18.overlay"
     eng.number_loops(fn)
     st = State()
     self_, log = screen_world(ctx, eng, st)
@@ -397,6 +397,7 @@ def u_ti_clear_tail(ctx):
 
     def elem(i, s_):
         i = to_z3(i)
+        s_.ghost["Qterms"] = list(s_.ghost.get("Qterms", [])) + [WID(i)]
         widget = Rec("widget", {"wid": WID(i), "_ti_image": Rec("image", {"kitty": K(i)})})
         canv = Rec("canvas", {"widget_info": (widget, "size", "focus")})
         return (canv, "row", "col", "trim")
@@ -424,7 +425,7 @@ def u_ti_clear_tail(ctx):
     def ev_List(e_, s_):
         if not e_.elts:
             s_ = eng.fork(s_)
-            r = s_.new("symlist", {"len": z3.IntVal(0), "all_kitty_prefix": True})
+            r = s_.new("symlist", {"len": z3.IntVal(0), "inlist": z3.K(z3.IntSort(), z3.BoolVal(False))})
             return [(r, s_)]
         return orig_ev_list(e_, s_)
     eng.ev_List = ev_List
@@ -432,12 +433,27 @@ def u_ti_clear_tail(ctx):
     def sl_append(e, s, recv, a, k):
         s = e.fork(s)
         h = s.H(recv)
-        # the list is the prefix of the disappeared widgets: the element appended must be the next one
-        e.oblige("kitty_widgets-collects-the-disappeared-widgets-in-order", s, Eq(a[0].f["wid"], WID(to_z3(h["len"]))), kind="safety")
+        w = to_z3(a[0].f["wid"])
+        # clear_images() advances a widget's disguise once per occurrence in its argument list (and the disguise has three states):
+        # a widget listed three times would look unchanged to urwid although its images were deleted
+        e.oblige("each-widget-listed-once(its-disguise-changes-by-exactly-one-step)", s, z3.Not(h["inlist"][w]), kind="safety")
+        h["inlist"] = z3.Store(h["inlist"], w, True)
         h["len"] = h["len"] + 1
         return [(None, s)]
     eng.methods[("symlist", "append")] = sl_append
+
+    def sl_clear(e, s, recv, a, k):
+        s = e.fork(s)
+        s.H(recv).update(len=z3.IntVal(0), inlist=z3.K(z3.IntSort(), z3.BoolVal(False)))
+        return [(None, s)]
+    eng.methods[("symlist", "clear")] = sl_clear
     eng.methods[("symlist", "__bool__")] = lambda e, s, recv, a, k: [(s.H(recv)["len"] > 0, s)]
+    def sl_contains(e, s, recv, a, k):
+        h = s.H(recv)
+        r = h["inlist"][to_z3(a[0].f["wid"])]
+        s = e.fork(s, z3.Implies(r, h["len"] >= 1))       # a list with a member is not empty
+        return [(r, s)]
+    eng.methods[("symlist", "__contains__")] = sl_contains
 
     def clear_images(e, s, recv, a, k):
         s = e.fork(s)
@@ -449,7 +465,7 @@ def u_ti_clear_tail(ctx):
 
     def iter_concrete(v, s_):
         if isinstance(v, Ref) and v.cls == "symlist":
-            return [("ALL", s_.H(v)["len"])]
+            return [("ALL", v)]
         return orig_iter(v, s_)
     eng.iter_concrete = iter_concrete
     from pyvc.engine import LoopSpec
@@ -459,13 +475,17 @@ def u_ti_clear_tail(ctx):
 
     def inv(s, i, N):
         lst = s.lookup("kitty_widgets")
-        return z3.And(N == D, s.H(lst)["len"] == i, z3.BoolVal(s.ghost["out"] == []))
+        return z3.And(N == D, s.H(lst)["len"] >= 0, s.H(lst)["len"] <= i, z3.Implies(i >= 1, s.H(lst)["len"] >= 1), z3.BoolVal(s.ghost["out"] == []))
 
     def qinv(s, i, N):
-        return [lambda j: z3.Implies(z3.And(0 <= j, j < i), K(j))]
+        lst = s.H(s.lookup("kitty_widgets"))
+        # every view looked at so far was a kitty image's, and its widget is in the list
+        return [lambda j: z3.Implies(z3.And(0 <= j, j < i), z3.And(K(j), lst["inlist"][WID(j)])),
+                lambda w: z3.Implies(lst["len"] == 0, z3.Not(lst["inlist"][w]))]        # an empty list has no member
 
     def havoc(e, s, tag):
         s.H(s.lookup("kitty_widgets"))["len"] = z3.Int(f"kwlen!{tag}")
+        s.H(s.lookup("kitty_widgets"))["inlist"] = z3.Array(f"kwin!{tag}", z3.IntSort(), z3.BoolSort())
         for nm in ("canv", "_", "widget"):
             s.env[nm] = Opaque(nm)
     eng.invariants = {loop_id[0]: LoopSpec(inv, havoc, qinv=qinv, on_break=lambda s: s)}
@@ -484,8 +504,9 @@ def u_ti_clear_tail(ctx):
             # delete-all: always sufficient ("a single clear_images() takes care of all images")
             eng.oblige("delete-all-only-when-something-disappeared", s2, D >= 1, kind="post")
         elif len(calls) == 1 and len(calls[0][1]) == 1 and calls[0][1][0][0] == "ALL":
-            n_del = calls[0][1][0][1]
-            eng.oblige("delete-by-z-index-for-every-disappeared-image(all-kitty)", s2, z3.And(n_del == D, D >= 1, z3.Implies(z3.And(0 <= j0, j0 < D), K(j0))), kind="post")
+            lst = s2.H(calls[0][1][0][1])
+            eng.oblige("delete-by-z-index-for-every-disappeared-image(all-kitty)", s2,
+                       z3.And(lst["len"] >= 1, D >= 1, z3.Implies(z3.And(0 <= j0, j0 < D), z3.And(K(j0), lst["inlist"][WID(j0)]))), kind="post")
         else:
             eng.oblige("nothing-deleted-only-when-nothing-disappeared", s2, z3.And(D == 0, z3.BoolVal(len(calls) == 0)), kind="post")
         cur = s.H(self_)["_ti_image_cviews"]
